@@ -184,6 +184,40 @@ limit_concrete_unit!(c10_limit_member_name_ctor__c255, b'a', b'a', b'a', b'a',
     |s| ok_forget(MemberName::try_from(s)),
     "C10.limit.member_name_ctor.255_bytes_accepted", "C10.limit.member_name_ctor.256_bytes_rejected");
 
+// ---- "however constructed": conversion from a dynamic Value (what a proxy / a deserialized a{sv} entry hands over) ----
+// ensures  Name::try_from(Value::Str(s)) is Ok  <=>  s satisfies the name's grammar          (ASCII, N <= 4)
+macro_rules! try_from_value_unit {
+    ($name:ident, $n:expr, $unwind:expr, $ty:ty, $spec:path, $o_valid:literal, $o_invalid:literal) => {
+        #[cfg(kani)]
+        #[kani::proof]
+        #[kani::stub(alloc::fmt::format, stub_format)]
+        #[kani::unwind($unwind)]
+        fn $name() {
+            let buf: [u8; $n] = kani::any();
+            let len: usize = kani::any();
+            kani::assume(len <= $n);
+            let mut k = 0;
+            while k < $n { kani::assume(buf[k] < 128); k += 1; }
+            let s: &str = unsafe { core::str::from_utf8_unchecked(&buf[..len]) };
+            let want = $spec(s.as_bytes());
+            let v = zvariant::Value::Str(zvariant::Str::from(s));
+            let r = <$ty>::try_from(v);
+            let ok = r.is_ok();
+            core::mem::forget(r);
+            // two clauses, so that the recorded finding about unvalidated conversions cannot mask a rejected valid name
+            if want { obl!($o_valid, ok); } else { obl!($o_invalid, !ok); }
+            kani::cover!(ok && want, "cover.valid_accepted");
+            kani::cover!(!want, "cover.invalid_input_reachable");
+        }
+    };
+}
+// @unit C10.try_from_value.member_name props=C10 kind=bounded bound=ASCII,N<=4 fn=<zbus_names::MemberName.as.TryFrom<zvariant::Value>>::try_from timeout=600
+#[cfg(not(verif_skip_c10_try_from_value_member_name__n4))]
+try_from_value_unit!(c10_try_from_value_member_name__n4, 4, 7, MemberName<'_>, spec_member_name, "C10.try_from_value.member_name.valid_names_accepted", "C10.try_from_value.member_name.invalid_names_rejected");
+// @unit C10.try_from_value.bus_name props=C10 kind=bounded bound=ASCII,N<=4 fn=<zbus_names::BusName.as.TryFrom<zvariant::Value>>::try_from timeout=600
+#[cfg(not(verif_skip_c10_try_from_value_bus_name__n4))]
+try_from_value_unit!(c10_try_from_value_bus_name__n4, 4, 7, BusName<'_>, spec_bus_name, "C10.try_from_value.bus_name.valid_names_accepted", "C10.try_from_value.bus_name.invalid_names_rejected");
+
 // @unit CANARY.zbus_names props=CANARY kind=complete expect=fail timeout=300
 #[cfg(not(verif_skip_canary_zbus_names_must_fail))]
 #[cfg(kani)]
